@@ -443,9 +443,8 @@ func (tf *typeFormatter) enumFromConstantRef(def ast.ConstantReferenceType) stri
 			return "unknown"
 		}
 
-		if refPkg := tf.packageMapper(def.ReferredPkg, formatObjectName(def.ReferredType)); refPkg != "" {
-			return fmt.Sprintf("%s.%s.%s", refPkg, def.ReferredType, enumVale.Name)
-		}
+		// the enum of another package is imported: its simple name designates it
+		tf.packageMapper(def.ReferredPkg, formatObjectName(def.ReferredType))
 
 		return fmt.Sprintf("%s.%s", formatObjectName(def.ReferredType), tools.UpperSnakeCase(enumVale.Name))
 	}
